@@ -470,7 +470,8 @@ fn total_clusters_of(bs: &Sector) -> u64 {
     catch(|| bpb_probe(bs, false)).and_then(Result::ok).map_or(0, |p| u64::from(p.total_clusters))
 }
 
-/// the witnesses of the known defects F7/F8 and their neighbourhood: always emitted first
+/// regression stream: the witnesses of the repaired defects F7 (overflow panics), F8 (root cluster) and F20 (cluster
+/// limit) and their neighbourhood, always emitted first; the C07 oracles fire again if one of them returns
 fn directed(g: &mut Gen, bases: &[Sector]) {
     let f32small = bases[2];
     let f32big = bases[3];
@@ -512,7 +513,7 @@ fn directed(g: &mut Gen, bases: &[Sector]) {
             g.mount(&s, &valid_fsinfo(1, 2), true);
         }
     }
-    // the witnesses of the theorems in Props/C07.lean, on the real code
+    // the witnesses / regression examples of Props/C07.lean, on the real code
     {
         let w = |spc: u64, rsvd: u64, fats: u64, ts32: u64, spf32: u64, ext: u64, rc: u64| {
             let mut s = f32small;
